@@ -233,6 +233,7 @@ pub fn generate(seed: u64, knobs: &Knobs) -> C10Scenario {
         false,
         knobs.layer == Layer::L1,
         backend,
+        false,
     );
     if knobs.layer != Layer::L1 {
         invocation.opts.generator_override = None;
